@@ -1,7 +1,7 @@
 (* Stage B of the conformance proof: given the options a directive denotes, do_printf_ints /
    do_printf_chars append exactly what IsoPrintf.iso_printf prescribes. *)
 From Coq Require Import String.
-From Coq Require Import NArith ZArith List Bool Lia ZifyBool ZifyNat ZifyN.
+From Coq Require Import NArith ZArith Znumtheory List Bool Lia ZifyBool ZifyNat ZifyN.
 From FV Require Import Printf.PrintIntModel Printf.IsoPrintf Printf.PrintIntProofs Printf.PrintfModel
   Printf.PrintfParse Printf.PrintfConform Printf.PrintfStageA.
 Import ListNotations.
@@ -294,4 +294,340 @@ Proof.
   unfold zlen. rewrite Hb. clear Hb.
   unfold iso_int. fold value. rewrite Hc. cbv zeta; cbn [radix_of andb app]. fold p.
   unfold sign_chars, zeros, blanks, zlen, len, is_some; reflexivity.
+Qed.
+
+(* ---- what the agent appends *)
+
+Lemma interp_slot : forall ct (k : N) z, (ct_bits ct <= k)%N -> (1 <= ct_bits ct)%N ->
+  interp ct (Z.to_N (z mod 2 ^ Z.of_N k))
+  = if ct_signed ct then to_signed (Z.of_N (ct_bits ct)) z else to_unsigned (Z.of_N (ct_bits ct)) z.
+Proof.
+  intros ct k z Hk Hb. unfold interp, to_signed, to_unsigned.
+  set (b := Z.of_N (ct_bits ct)).
+  assert (Hb0 : 0 < 2 ^ b) by (apply Z.pow_pos_nonneg; lia).
+  assert (Hk0 : 0 < 2 ^ Z.of_N k) by (apply Z.pow_pos_nonneg; lia).
+  assert (Hm : Z.of_N (Z.to_N (z mod 2 ^ Z.of_N k) mod 2 ^ ct_bits ct) = z mod 2 ^ b).
+  { rewrite N2Z.inj_mod. rewrite Z2N.id by (pose proof (Z.mod_pos_bound z (2 ^ Z.of_N k)); lia).
+    rewrite N2Z.inj_pow. change (Z.of_N 2) with 2. fold b.
+    assert (Hdiv : (2 ^ b | 2 ^ Z.of_N k)).
+    { exists (2 ^ (Z.of_N k - b)). rewrite <- Z.pow_add_r by lia. f_equal. lia. }
+    symmetry. apply Zmod_div_mod; assumption. }
+  rewrite Hm. destruct (ct_signed ct); reflexivity.
+Qed.
+
+Lemma interp_slot32 : forall ct z, (ct_bits ct <= 32)%N -> (1 <= ct_bits ct)%N ->
+  interp ct (slot32 z) = if ct_signed ct then to_signed (Z.of_N (ct_bits ct)) z else to_unsigned (Z.of_N (ct_bits ct)) z.
+Proof. intros. exact (interp_slot ct 32 z H H0). Qed.
+Lemma interp_slot64 : forall ct z, (ct_bits ct <= 64)%N -> (1 <= ct_bits ct)%N ->
+  interp ct (slot64 z) = if ct_signed ct then to_signed (Z.of_N (ct_bits ct)) z else to_unsigned (Z.of_N (ct_bits ct)) z.
+Proof. intros. exact (interp_slot ct 64 z H H0). Qed.
+
+Definition int_slot (l : lenmod) (a : Z) : N := match l with LNone | Lhh | Lh => slot32 a | _ => slot64 a end.
+
+Lemma value_slot_int : forall d v, is_int_conv (d_conv d) = true -> value_slot d v = [int_slot (d_len d) (a_int v)].
+Proof. intros d v H. unfold value_slot, int_slot. destruct (d_conv d); try discriminate; destruct (d_len d); reflexivity. Qed.
+
+Lemma pop_va_eval : forall ct opts out raw rest pops cache na, arg_pos opts = -1 ->
+  pop_arg ct opts (mk_ps out (mk_vs (raw :: rest) pops cache na))
+  = (mk_ps out (mk_vs rest (pops ++ [ct_va ct]) cache na), Ok (interp ct raw)).
+Proof. intros. unfold pop_arg. rewrite H. rewrite Z.eqb_refl. reflexivity. Qed.
+
+Definition int_argty (l : lenmod) : argty :=
+  match l with LNone | Lhh | Lh => ATInt | Lll => ATLLong | _ => ATLong end.
+
+Lemma pop_signed : forall l a opts out rest pops cache na, arg_pos opts = -1 ->
+  exists ct, signed_type (szmod_of l) = Some ct /\
+    pop_arg ct opts (mk_ps out (mk_vs (int_slot l a :: rest) pops cache na))
+    = (mk_ps out (mk_vs rest (pops ++ [int_argty l]) cache na), Ok (to_signed (len_bits l) a)).
+Proof.
+  intros l a opts out rest pops cache na Hap.
+  destruct l; (eexists; split; [reflexivity|]); rewrite pop_va_eval by assumption; unfold int_slot;
+    first [rewrite interp_slot32 by (cbn; lia) | rewrite interp_slot64 by (cbn; lia)]; reflexivity.
+Qed.
+
+Lemma pop_unsigned : forall l a opts out rest pops cache na, arg_pos opts = -1 ->
+  exists ct, unsigned_type (szmod_of l) = Some ct /\
+    pop_arg ct opts (mk_ps out (mk_vs (int_slot l a :: rest) pops cache na))
+    = (mk_ps out (mk_vs rest (pops ++ [int_argty l]) cache na), Ok (to_unsigned (len_bits l) a)).
+Proof.
+  intros l a opts out rest pops cache na Hap.
+  destruct l; (eexists; split; [reflexivity|]); rewrite pop_va_eval by assumption; unfold int_slot;
+    first [rewrite interp_slot32 by (cbn; lia) | rewrite interp_slot64 by (cbn; lia)]; reflexivity.
+Qed.
+
+Lemma to_signed_range : forall bits z, 0 < bits <= 64 -> - 2 ^ 63 <= to_signed bits z < 2 ^ 64.
+Proof.
+  intros bits z Hb. unfold to_signed.
+  assert (0 < 2 ^ (bits - 1)) by (apply Z.pow_pos_nonneg; lia).
+  assert (2 ^ bits = 2 * 2 ^ (bits - 1)) by (rewrite <- Z.pow_succ_r by lia; f_equal; lia).
+  assert (2 ^ (bits - 1) <= 2 ^ 63) by (apply Z.pow_le_mono_r; lia).
+  pose proof (Z.mod_pos_bound z (2 ^ bits) ltac:(lia)).
+  destruct (2 ^ (bits - 1) <=? z mod 2 ^ bits) eqn:E; lia.
+Qed.
+
+(* what the agent appends for an integer directive *)
+Lemma agent_int : forall mem d v out rest pops cache na,
+  is_int_conv (d_conv d) = true -> in_grammar d = true ->
+  agent mem (conv_char (d_conv d)) (opts_of d v) (szmod_of (d_len d))
+        (mk_ps out (mk_vs (value_slot d v ++ rest) pops cache na))
+  = (mk_ps (out ++ iso_printf d v) (mk_vs rest (pops ++ [int_argty (d_len d)]) cache na), Ok tt).
+Proof.
+  intros mem d v out rest pops cache na Hint Hgr.
+  rewrite (value_slot_int d v Hint). cbn [app].
+  destruct (opts_of_fields d v) as [F1 [F2 [F3 [F4 [F5 [F6 [F7 [F8 F9]]]]]]]].
+  unfold iso_printf.
+  destruct (d_conv d) eqn:Ec; try discriminate; cbn [conv_char]; unfold agent; cbn [N.eqb Pos.eqb orb];
+    unfold do_printf_ints; cbn [N.eqb Pos.eqb orb].
+  - (* d *)
+    assert (Halt : alt_conversion (opts_of d v) = false).
+    { rewrite F4. unfold in_grammar in Hgr. rewrite Ec in Hgr. destruct (has FHash d); [|reflexivity].
+      rewrite !andb_false_r in Hgr. discriminate. }
+    rewrite Halt. cbn [negb massert]. mstep ltac:(reflexivity).
+    destruct (pop_signed (d_len d) (a_int v) (opts_of d v) out rest pops cache na F9) as [ct [Hct Hpop]].
+    rewrite Hct. mstep ltac:(exact Hpop).
+    rewrite print_int_spec; [ | compute; discriminate | compute; discriminate | compute; discriminate | compute; discriminate | change (Z.of_N 64 - 1) with 63; apply to_signed_range; apply len_bits_range ].
+    mstep ltac:(reflexivity).
+    rewrite (signed_result_iso d v (or_introl Ec)). reflexivity.
+  - (* i *)
+    assert (Halt : alt_conversion (opts_of d v) = false).
+    { rewrite F4. unfold in_grammar in Hgr. rewrite Ec in Hgr. destruct (has FHash d); [|reflexivity].
+      rewrite !andb_false_r in Hgr. discriminate. }
+    rewrite Halt. cbn [negb massert]. mstep ltac:(reflexivity).
+    destruct (pop_signed (d_len d) (a_int v) (opts_of d v) out rest pops cache na F9) as [ct [Hct Hpop]].
+    rewrite Hct. mstep ltac:(exact Hpop).
+    rewrite print_int_spec; [ | compute; discriminate | compute; discriminate | compute; discriminate | compute; discriminate | change (Z.of_N 64 - 1) with 63; apply to_signed_range; apply len_bits_range ].
+    mstep ltac:(reflexivity).
+    rewrite (signed_result_iso d v (or_intror Ec)). reflexivity.
+  - (* u *)
+    assert (Halt : alt_conversion (opts_of d v) = false).
+    { rewrite F4. unfold in_grammar in Hgr. rewrite Ec in Hgr. destruct (has FHash d); [|reflexivity].
+      rewrite !andb_false_r in Hgr. discriminate. }
+    destruct (pop_unsigned (d_len d) (a_int v) (opts_of d v) out rest pops cache na F9) as [ct [Hct Hpop]].
+    rewrite Hct. mstep ltac:(exact Hpop).
+    rewrite Halt. cbn [negb massert]. mstep ltac:(reflexivity).
+    unfold print_unsigned. rewrite Halt. rewrite andb_false_r.
+    pose proof (to_unsigned_range (len_bits (d_len d)) (a_int v) (len_bits_range _)) as Hv.
+    rewrite print_int_spec; [ | compute; discriminate | compute; discriminate | compute; discriminate | compute; discriminate | change (Z.of_N 64 - 1) with 63; clear - Hv; lia ].
+    mstep ltac:(reflexivity).
+    replace (to_unsigned (len_bits (d_len d)) (a_int v) <? 0) with false by (clear - Hv; lia).
+    rewrite (unsigned_dec_result_iso d v [] Ec). reflexivity.
+  - (* o *)
+    destruct (pop_unsigned (d_len d) (a_int v) (opts_of d v) out rest pops cache na F9) as [ct [Hct Hpop]].
+    rewrite Hct. mstep ltac:(exact Hpop).
+    unfold print_unsigned.
+    pose proof (to_unsigned_range (len_bits (d_len d)) (a_int v) (len_bits_range _)) as Hv.
+    rewrite print_int_spec; [ | compute; discriminate | compute; discriminate | compute; discriminate | compute; discriminate | change (Z.of_N 64 - 1) with 63; clear - Hv; lia ].
+    mstep ltac:(reflexivity).
+    replace (to_unsigned (len_bits (d_len d)) (a_int v) <? 0) with false by (clear - Hv; lia).
+    replace (if negb (to_unsigned (len_bits (d_len d)) (a_int v) =? 0) && alt_conversion (opts_of d v) then [] else []) with (@nil N)
+      by (destruct (negb (to_unsigned (len_bits (d_len d)) (a_int v) =? 0) && alt_conversion (opts_of d v)); reflexivity).
+    rewrite (octal_result_iso d v Ec). reflexivity.
+  - (* x *)
+    destruct (pop_unsigned (d_len d) (a_int v) (opts_of d v) out rest pops cache na F9) as [ct [Hct Hpop]].
+    rewrite Hct. mstep ltac:(exact Hpop).
+    unfold print_unsigned.
+    pose proof (to_unsigned_range (len_bits (d_len d)) (a_int v) (len_bits_range _)) as Hv.
+    rewrite print_int_spec; [ | compute; discriminate | compute; discriminate | compute; discriminate | compute; discriminate | change (Z.of_N 64 - 1) with 63; clear - Hv; lia ].
+    mstep ltac:(reflexivity).
+    replace (to_unsigned (len_bits (d_len d)) (a_int v) <? 0) with false by (clear - Hv; lia).
+    rewrite (hex_result_iso d v false Ec). reflexivity.
+  - (* X *)
+    destruct (pop_unsigned (d_len d) (a_int v) (opts_of d v) out rest pops cache na F9) as [ct [Hct Hpop]].
+    rewrite Hct. mstep ltac:(exact Hpop).
+    unfold print_unsigned.
+    pose proof (to_unsigned_range (len_bits (d_len d)) (a_int v) (len_bits_range _)) as Hv.
+    rewrite print_int_spec; [ | compute; discriminate | compute; discriminate | compute; discriminate | compute; discriminate | change (Z.of_N 64 - 1) with 63; clear - Hv; lia ].
+    mstep ltac:(reflexivity).
+    replace (to_unsigned (len_bits (d_len d)) (a_int v) <? 0) with false by (clear - Hv; lia).
+    rewrite (hex_result_iso d v true Ec). reflexivity.
+Qed.
+
+
+(* ---- %s *)
+Lemma strnlen_take : forall buf lim acc,
+  has_nul_within buf lim = true ->
+  c_strnlen buf lim acc = Ok (acc + len (take_str buf lim)).
+Proof.
+  induction buf as [|ch r IH]; intros lim acc H.
+  - destruct lim as [[|m]|]; cbn in *; try discriminate. f_equal. unfold len. cbn. lia.
+  - destruct lim as [[|m]|]; cbn [c_strnlen take_str has_nul_within] in *.
+    + f_equal. unfold len. cbn. lia.
+    + destruct (N.eqb ch 0) eqn:E; [f_equal; unfold len; cbn; lia|].
+      cbn [orb] in H. rewrite IH by assumption. f_equal. unfold len. cbn [length]. lia.
+    + destruct (N.eqb ch 0) eqn:E; [f_equal; unfold len; cbn; lia|].
+      cbn [orb] in H. rewrite IH by assumption. f_equal. unfold len. cbn [length]. lia.
+Qed.
+
+Lemma copy_take : forall buf lim,
+  has_nul_within buf lim = true -> forallb (fun ch => N.ltb ch 256) buf = true ->
+  copy_chars (length (take_str buf lim)) buf = Ok (take_str buf lim).
+Proof.
+  induction buf as [|ch r IH]; intros lim H Hb.
+  - destruct lim as [[|m]|]; cbn in *; try discriminate; reflexivity.
+  - cbn [forallb] in Hb. apply andb_true_iff in Hb. destruct Hb as [Hch Hr].
+    destruct lim as [[|m]|]; cbn [take_str has_nul_within] in *.
+    + reflexivity.
+    + destruct (N.eqb ch 0) eqn:E; [reflexivity|]. cbn [orb] in H. cbn [length copy_chars]. rewrite E.
+      rewrite IH by assumption. cbn [bind]. rewrite N.mod_small by (apply N.ltb_lt; assumption). reflexivity.
+    + destruct (N.eqb ch 0) eqn:E; [reflexivity|]. cbn [orb] in H. cbn [length copy_chars]. rewrite E.
+      rewrite IH by assumption. cbn [bind]. rewrite N.mod_small by (apply N.ltb_lt; assumption). reflexivity.
+Qed.
+
+Lemma only_minus_flags : forall d f,
+  forallb (fun g => match g with FMinus => true | _ => false end) (d_flags d) = true ->
+  f <> FMinus -> has f d = false.
+Proof.
+  intros d f H Hf. rewrite has_existsb. induction (d_flags d) as [|g l IH]; [reflexivity|].
+  cbn [forallb existsb] in *. apply andb_true_iff in H. destruct H as [Hg Hl].
+  rewrite IH by assumption. destruct g; try discriminate. destruct f; try reflexivity. congruence.
+Qed.
+
+Lemma to_signed8_mod256 : forall a, to_signed 8 a mod 256 = a mod 256.
+Proof.
+  intros a. unfold to_signed. change (2 ^ 8) with 256. change (2 ^ (8 - 1)) with 128.
+  destruct (128 <=? a mod 256).
+  - rewrite <- (Z.mod_add (a mod 256 - 256) 1 256) by lia. replace (a mod 256 - 256 + 1 * 256) with (a mod 256) by lia.
+    apply Z.mod_mod. lia.
+  - apply Z.mod_mod. lia.
+Qed.
+
+(* %c *)
+Lemma agent_char : forall mem d v out rest pops cache na,
+  d_conv d = Cc -> in_grammar d = true ->
+  agent mem 99%N (opts_of d v) (szmod_of (d_len d))
+        (mk_ps out (mk_vs (slot32 (a_int v) :: rest) pops cache na))
+  = (mk_ps (out ++ iso_printf d v) (mk_vs rest (pops ++ [ATInt]) cache na), Ok tt).
+Proof.
+  intros mem d v out rest pops cache na Ec Hgr.
+  destruct (opts_of_fields d v) as [F1 [F2 [F3 [F4 [F5 [F6 [F7 [F8 F9]]]]]]]].
+  unfold in_grammar in Hgr. rewrite Ec in Hgr.
+  apply andb_true_iff in Hgr. destruct Hgr as [Hgr Hlen].
+  apply andb_true_iff in Hgr. destruct Hgr as [Hgr Hprec].
+  apply andb_true_iff in Hgr. destruct Hgr as [Hgr Hfl].
+  assert (Hl : d_len d = LNone) by (destruct (d_len d); try discriminate; reflexivity).
+  assert (Hp : d_prec d = PNone) by (destruct (d_prec d); try discriminate; reflexivity).
+  unfold agent. cbn [N.eqb Pos.eqb orb]. unfold do_printf_chars. cbn [N.eqb Pos.eqb].
+  rewrite F5, F4, F8. rewrite (only_minus_flags d FZero Hfl) by discriminate.
+  rewrite (only_minus_flags d FHash Hfl) by discriminate.
+  rewrite Hl. cbn [szmod_of szmod_eqb]. unfold eff_prec. rewrite Hp. cbn [is_some negb massert].
+  mstep ltac:(reflexivity). mstep ltac:(reflexivity). mstep ltac:(reflexivity). mstep ltac:(reflexivity).
+  rewrite F7. replace (Z.abs (eff_width d v) =? INT_MIN) with false by (unfold INT_MIN; clear; lia).
+  unfold iso_printf. rewrite Ec. unfold justify.
+  assert (Hch : Z.to_N (interp t_char (slot32 (a_int v)) mod 256) = Z.to_N (a_int v mod 256)).
+  { rewrite interp_slot32 by (compute; discriminate). cbn [ct_signed t_char ct_bits]. change (Z.of_N 8) with 8.
+    rewrite to_signed8_mod256. reflexivity. }
+  rewrite F1. destruct (has FMinus d || (eff_width d v <? 0)).
+  - mstep ltac:(apply pop_va_eval; assumption).
+    mstep ltac:(reflexivity). unfold emit. cbn [ps_out ps_vs]. rewrite Hch.
+    unfold spaces, blanks, len. cbn [length]. rewrite <- app_assoc. reflexivity.
+  - mstep ltac:(reflexivity).
+    mstep ltac:(apply pop_va_eval; assumption).
+    unfold emit. cbn [ps_out ps_vs]. rewrite Hch.
+    unfold spaces, blanks, len. cbn [length]. rewrite <- app_assoc. reflexivity.
+Qed.
+
+(* %s *)
+Lemma interp_ptr : forall a, 0 <= a < 2 ^ 64 -> interp t_ptr (slot64 a) = a.
+Proof.
+  intros a Ha. rewrite interp_slot64 by (compute; discriminate). cbn [ct_signed t_ptr ct_bits].
+  unfold to_unsigned. change (Z.of_N 64) with 64. apply Z.mod_small. exact Ha.
+Qed.
+
+Lemma agent_str : forall d v out rest pops cache na,
+  d_conv d = Cs -> in_grammar d = true -> fits d v = true ->
+  agent (mem_of d v) 115%N (opts_of d v) (szmod_of (d_len d))
+        (mk_ps out (mk_vs (str_addr :: rest) pops cache na))
+  = (mk_ps (out ++ iso_printf d v) (mk_vs rest (pops ++ [ATPtr]) cache na), Ok tt).
+Proof.
+  intros d v out rest pops cache na Ec Hgr Hfit.
+  destruct (opts_of_fields d v) as [F1 [F2 [F3 [F4 [F5 [F6 [F7 [F8 F9]]]]]]]].
+  unfold in_grammar in Hgr. rewrite Ec in Hgr.
+  apply andb_true_iff in Hgr. destruct Hgr as [Hgr Hlen].
+  apply andb_true_iff in Hgr. destruct Hgr as [Hgr Hfl].
+  assert (Hl : d_len d = LNone) by (destruct (d_len d); try discriminate; reflexivity).
+  unfold fits in Hfit. rewrite Ec in Hfit.
+  apply andb_true_iff in Hfit. destruct Hfit as [_ Hstr].
+  apply andb_true_iff in Hstr. destruct Hstr as [Hnul Hbytes].
+  unfold agent. cbn [N.eqb Pos.eqb orb]. unfold do_printf_chars. cbn [N.eqb Pos.eqb].
+  rewrite F5, F4. rewrite (only_minus_flags d FZero Hfl) by discriminate.
+  rewrite (only_minus_flags d FHash Hfl) by discriminate. cbn [negb massert].
+  mstep ltac:(reflexivity). mstep ltac:(reflexivity).
+  rewrite Hl. cbn [szmod_of szmod_eqb].
+  unfold printf_string.
+  mstep ltac:(apply pop_va_eval; assumption).
+  assert (Hptr : interp t_ptr str_addr = Z.of_N str_addr) by reflexivity.
+  rewrite Hptr. change (Z.of_N str_addr =? 0) with false. cbv iota.
+  unfold mem_of. rewrite Ec. rewrite N2Z.id. cbn [mem_lookup]. rewrite N.eqb_refl.
+  mstep ltac:(reflexivity).
+  rewrite F8.
+  set (lim := match eff_prec d v with Some p => Some (Z.to_nat p) | None => None end) in *.
+  assert (Hlim : match eff_prec d v with
+                 | Some pr => c_strnlen (a_str v) (if pr <? 0 then None else Some (Z.to_nat pr)) 0
+                 | None => c_strnlen (a_str v) None 0
+                 end = Ok (len (take_str (a_str v) lim))).
+  { subst lim. destruct (eff_prec d v) as [pr|] eqn:Ep.
+    - pose proof (eff_prec_nonneg d v pr Ep). replace (pr <? 0) with false by (clear - H; lia).
+      rewrite strnlen_take by assumption. reflexivity.
+    - rewrite strnlen_take by assumption. reflexivity. }
+  rewrite Hlim. mstep ltac:(reflexivity).
+  unfold len at 1. rewrite Nat2Z.id. rewrite copy_take by assumption.
+  mstep ltac:(reflexivity).
+  unfold iso_printf. rewrite Ec. unfold justify. fold lim.
+  rewrite F1, F7.
+  assert (Hpad : (if len (take_str (a_str v) lim) <? Z.abs (eff_width d v)
+                  then spaces (Z.abs (eff_width d v) - len (take_str (a_str v) lim)) else [])
+                 = blanks (Z.abs (eff_width d v) - len (take_str (a_str v) lim))).
+  { unfold spaces, blanks. destruct (len (take_str (a_str v) lim) <? Z.abs (eff_width d v)) eqn:E; [reflexivity|].
+    rewrite repeat_neg by (clear - E; lia). reflexivity. }
+  rewrite Hpad.
+  destruct (has FMinus d || (eff_width d v <? 0)); unfold emit; cbn [ps_out ps_vs]; reflexivity.
+Qed.
+
+(* %p *)
+Lemma print_digits_result_plain : forall mag radix caps, (2 <= radix)%N ->
+  print_digits_result mag false radix 0 1 32%N false false false caps [] = digits radix caps mag.
+Proof.
+  intros mag radix caps Hr. unfold print_digits_result.
+  change (1 =? 0) with false. rewrite andb_false_r.
+  pose proof (digits_nonempty radix caps mag Hr) as Hne.
+  assert (Hl : 1 <= zlen (digits radix caps mag)).
+  { unfold zlen. destruct (digits radix caps mag); [congruence | cbn [length]; lia]. }
+  cbn [sign_chars app N.eqb Pos.eqb].
+  rewrite (repeat_neg _ 48%N (1 - zlen (digits radix caps mag))) by lia. cbn [app].
+  rewrite repeat_neg by (unfold zlen in *; cbn [length] in *; lia).
+  reflexivity.
+Qed.
+
+Lemma agent_ptr : forall mem d v out rest pops cache na,
+  d_conv d = Cp -> in_grammar d = true -> fits d v = true ->
+  agent mem 112%N (opts_of d v) (szmod_of (d_len d))
+        (mk_ps out (mk_vs (slot64 (a_int v) :: rest) pops cache na))
+  = (mk_ps (out ++ iso_printf d v) (mk_vs rest (pops ++ [ATPtr]) cache na), Ok tt).
+Proof.
+  intros mem d v out rest pops cache na Ec Hgr Hfit.
+  unfold in_grammar in Hgr. rewrite Ec in Hgr.
+  destruct (d_flags d) eqn:Efl; [|destruct (d_pos d); discriminate].
+  destruct (d_width d) eqn:Ew; try (destruct (d_pos d); discriminate).
+  destruct (d_prec d) eqn:Ep; try (destruct (d_pos d); discriminate).
+  destruct (d_len d) eqn:El; try (destruct (d_pos d); discriminate).
+  unfold fits in Hfit. rewrite Ec, Ew, Ep in Hfit. cbn [andb] in Hfit.
+  assert (Ha : 0 <= a_int v < 2 ^ 64) by (clear - Hfit; lia).
+  assert (Ho : opts_of d v = set_width 0 (set_dollar false default_options)).
+  { unfold opts_of, prec_opts, width_opts. rewrite Efl, Ew, Ep. reflexivity. }
+  rewrite Ho.
+  unfold agent. cbn [N.eqb Pos.eqb orb]. unfold do_printf_chars. cbn [N.eqb Pos.eqb].
+  cbn [set_width set_dollar default_options fill_zeros left_justify alt_conversion minimum_width negb massert Z.eqb].
+  mstep ltac:(reflexivity). mstep ltac:(reflexivity). mstep ltac:(reflexivity). mstep ltac:(reflexivity).
+  mstep ltac:(reflexivity).
+  mstep ltac:(apply pop_va_eval; reflexivity).
+  rewrite interp_ptr by assumption.
+  unfold print_int_default.
+  rewrite print_int_spec; [ | compute; discriminate | compute; discriminate | compute; discriminate | compute; discriminate
+                          | change (Z.of_N 64 - 1) with 63; clear - Ha; lia ].
+  mstep ltac:(reflexivity).
+  replace (a_int v <? 0) with false by (clear - Ha; lia).
+  rewrite print_digits_result_plain by (compute; discriminate).
+  unfold iso_printf. rewrite Ec. unfold emit. cbn [ps_out ps_vs].
+  replace (Z.to_N (Z.abs (a_int v))) with (Z.to_N (a_int v)) by (f_equal; clear - Ha; lia).
+  rewrite <- app_assoc. reflexivity.
 Qed.
